@@ -364,3 +364,63 @@ pub fn pick<'a, T>(r: &mut StdRng, xs: &'a [T]) -> &'a T {
 pub fn subset(r: &mut StdRng, xs: &[&str]) -> Vec<String> {
     xs.iter().filter(|_| r.gen_bool(0.5)).map(|x| x.to_string()).collect()
 }
+
+// ---------------------------------------------------------------------------------------------
+// events and ScVal → JSON (added for the token models; purely additive)
+// ---------------------------------------------------------------------------------------------
+use soroban_sdk::{testutils::Events as _, xdr, TryFromVal};
+
+fn parts_to_i128(hi: i64, lo: u64) -> i128 {
+    ((hi as i128) << 64) | (lo as i128)
+}
+
+/// Generic ScVal → JSON: addresses become model names (or "?"), integers go through `conv`
+/// (so that a model can divide by its amount scale), maps become objects keyed by symbol/string.
+pub fn scval_json(e: &Env, names: &Names, v: &xdr::ScVal, conv: &dyn Fn(i128) -> Value) -> Value {
+    use xdr::ScVal::*;
+    match v {
+        Bool(b) => json!(b),
+        Void => Value::Null,
+        U32(x) => json!(x),
+        I32(x) => json!(x),
+        U64(x) => json!(x),
+        I64(x) => json!(x),
+        U128(p) => conv(((p.hi as u128) << 64 | p.lo as u128) as i128),
+        I128(p) => conv(parts_to_i128(p.hi, p.lo)),
+        Symbol(s) => json!(s.to_utf8_string_lossy()),
+        String(s) => json!(s.to_utf8_string_lossy()),
+        Bytes(b) => json!(b.iter().map(|x| format!("{x:02x}")).collect::<std::string::String>()),
+        Address(_) => {
+            let a = soroban_sdk::Address::try_from_val(e, v).unwrap();
+            json!(names.name_of(&a))
+        }
+        Vec(Some(xs)) => Value::Array(xs.iter().map(|x| scval_json(e, names, x, conv)).collect()),
+        Vec(None) => json!([]),
+        Map(Some(m)) => {
+            let mut o = JMap::new();
+            for ent in m.iter() {
+                let k = match scval_json(e, names, &ent.key, conv) {
+                    Value::String(s) => s,
+                    other => other.to_string(),
+                };
+                o.insert(k, scval_json(e, names, &ent.val, conv));
+            }
+            Value::Object(o)
+        }
+        Map(None) => json!({}),
+        other => json!(format!("{other:?}")),
+    }
+}
+
+/// Contract events of the last invocation emitted by `contract`: (topics as JSON, data as JSON).
+pub fn events_of(e: &Env, names: &Names, contract: &Address, conv: &dyn Fn(i128) -> Value) -> Vec<(Vec<Value>, Value)> {
+    let all = e.events().all();
+    let mine = all.filter_by_contract(contract);
+    let mut out = std::vec::Vec::new();
+    for ev in mine.events() {
+        let xdr::ContractEventBody::V0(b) = &ev.body;
+        let topics = b.topics.iter().map(|t| scval_json(e, names, t, conv)).collect();
+        out.push((topics, scval_json(e, names, &b.data, conv)));
+    }
+    out
+}
